@@ -44,6 +44,13 @@ def run(ctx):
         # the history of the repaired KF-C18-4 (trie: a put splits the node an iterator is parked on)
         hs.append([["Put", 3, 1], ["IterCreate", 2, 3 if impl == "trie" else 0], ["IterNext", 2], ["Put", 2, 1], ["IterFree", 2], ["Get", 2], ["Get", 3],
                    ["IterCreate", 1, 0], ["IterNext", 1], ["Put", 4, 1], ["Put", 1, 1], ["IterNext", 1], ["IterNext", 1]] + closing([1, 2, 3, 4], 2))
+        # the entry under an iterator is removed while several smaller and larger entries stay: the iterator goes on
+        # with exactly the larger ones (the successor of a removed entry is looked up again, from any depth of the list)
+        for ks in ([1, 2, 3, 4, 5], [2, 3, 4, 5, 8], [1, 2, 3, 4, 5, 6, 7, 8]):
+            for at in range(2, len(ks)):
+                h = [["Put", k, 1] for k in ks] + [["IterCreate", 1, 0]] + [["IterNext", 1]] * at
+                h += [["Rm", k] for k in ks[at - 1:at]] + [["IterNext", 1]] * (len(ks) - at + 1)
+                hs.append(h + closing(ks, 2))
         if impl == "skip":
             ctx.sample({"impl": impl, "history": maps.to_lines(hs[nx])})
         ctx.log("%s: %d histories (%d exhaustive)" % (impl, len(hs), nx))
